@@ -12,6 +12,8 @@ type c17Inbound struct {
 	tag  int
 	conn int
 	end  int
+	seq  int // broker sequence number when it was sent
+	late bool
 }
 
 func VerifH_SYS_C17() {
@@ -28,7 +30,7 @@ func VerifH_SYS_C17() {
 		c.rbuf = append(c.rbuf, p...)
 		c.nInjected += len(p)
 		c.signalLocked = true
-		inbound = append(inbound, c17Inbound{tag: tag, conn: c.id, end: c.nInjected})
+		inbound = append(inbound, c17Inbound{tag: tag, conn: c.id, end: c.nInjected, seq: b.seq})
 		verifEvent("c" + itoa(c.id) + ":<PUBLISH(" + itoa(tag) + ")")
 	}
 	unit := time.Second
@@ -52,14 +54,17 @@ func VerifH_SYS_C17() {
 		})
 	}
 	h1Seq, h2Seq := -1, -1
+	h1Ord, h2Ord := -1, -1
+	nHandle := 0
 	handle := func(i int) {
 		cli.Handle(mk(i))
 		verifLock()
 		if i == 1 {
-			h1Seq = b.seq
+			h1Seq, h1Ord = b.seq, nHandle
 		} else {
-			h2Seq = b.seq
+			h2Seq, h2Ord = b.seq, nHandle
 		}
+		nHandle++
 		verifUnlock()
 		verifEvent("app:handle" + itoa(i))
 	}
@@ -82,23 +87,51 @@ func VerifH_SYS_C17() {
 					cseq = at.seq
 				}
 			}
-			if h1Seq < 0 || h1Seq >= cseq {
-				continue // registered after this connection's CONNECT went out: nothing demanded
+			// reference point: when the CONNECT of this connection went out, or (for a message sent later on a live
+			// connection) when that message was sent
+			ref := cseq
+			if in.late {
+				ref = in.seq + 1
+			}
+			// the handler in force: the latest one registered before the reference point; handlers registered after
+			// it (while the message was under way) are acceptable too
+			cur, curOrd := 0, -1
+			for h := 1; h <= 2; h++ {
+				sq, ord := h1Seq, h1Ord
+				if h == 2 {
+					sq, ord = h2Seq, h2Ord
+				}
+				if sq >= 0 && sq < ref && ord > curOrd {
+					cur, curOrd = h, ord
+				}
+			}
+			if cur == 0 {
+				continue // nothing registered yet when this message was under way: nothing demanded
 			}
 			verifReach("inbound-after-handle")
 			n := 0
 			for _, g := range got {
 				if g.tag == in.tag {
 					n++
+					hOrd := h1Ord
+					if g.h == 2 {
+						hOrd = h2Ord
+					}
+					if hOrd < curOrd {
+						verifReach("after-replacement")
+					}
+					verifAssert(hOrd >= curOrd, "C17.replacement_handler_receives")
 				}
 			}
 			verifAssert(n >= 1, "C17.message_reaches_registered_handler")
 			verifAssert(n <= 1, "C17.message_handed_once")
+			if curOrd > 0 {
+				verifReach("after-replacement")
+			}
 		}
-		_ = h2Seq
 	})
 	point1 := verifChoice("handle1", 3) // 0 before Connect, 1 after Connect, 2 after an idle pause
-	point2 := verifChoice("handle2", 3) // 0 never, 1 right after Connect, 2 after an idle pause
+	point2 := verifChoice("handle2", 3+verifParam("handleany", 0)) // 0 never, 1 right after Connect, 2 after an idle pause, 3 at any scheduling point
 	if point1 == 0 {
 		handle(1)
 	}
@@ -118,6 +151,28 @@ func VerifH_SYS_C17() {
 	}
 	if point2 == 2 {
 		handle(2)
+	}
+	if point2 == 3 {
+		// replacement from another goroutine at any scheduling point, e.g. while a reconnection is in progress
+		go func() {
+			verifPauseAny()
+			handle(2)
+		}()
+	}
+	// another message on the live connection, after a possible replacement
+	verifLock()
+	if n := len(b.conns); n > 0 && b.accepted[n-1] && !b.conns[n-1].closed && !b.conns[n-1].eof {
+		c := b.conns[n-1]
+		tag := 80 + c.id
+		p := refEncodePublish([]byte("t"), 8, 0, false, false, []byte{byte(tag)})
+		c.rbuf = append(c.rbuf, p...)
+		c.nInjected += len(p)
+		inbound = append(inbound, c17Inbound{tag: tag, conn: c.id, end: c.nInjected, seq: b.seq, late: true})
+		verifEvent("c" + itoa(c.id) + ":<PUBLISH(" + itoa(tag) + ")")
+		verifUnlock()
+		c.signal()
+	} else {
+		verifUnlock()
 	}
 	_ = cli.Publish(context.Background(), &Message{Topic: "t", QoS: QoS1, Payload: []byte{2}})
 }
